@@ -794,8 +794,14 @@ pub const DATE_ITEMS: [&str; 26] = [
 ];
 
 pub fn date_fmt() -> impl Strategy<Value = String> {
-    prop::collection::vec(any::<u16>(), 1..=6)
-        .prop_map(|v| v.into_iter().map(|i| *crate::engine::pick(&DATE_ITEMS[..], i)).collect::<Vec<_>>().concat())
+    prop_oneof![
+        12 => prop::collection::vec(any::<u16>(), 1..=6).prop_map(|v| v.into_iter().map(|i| *crate::engine::pick(&DATE_ITEMS[..], i)).collect::<Vec<_>>().concat()),
+        // long formats: many items and stretches of literal text - the rendered date runs to 100-400 bytes
+        1 => (prop::collection::vec(any::<u16>(), 8..=24), prop::sample::select(vec!["", " on the day ", " - literal text of some forty characters - ", "T", " \u{e9}\u{e9}\u{e9} ", " week "]), 0usize..40).prop_map(|(v, sep, pad)| {
+            let items: Vec<&str> = v.into_iter().map(|i| *crate::engine::pick(&DATE_ITEMS[..], i)).collect();
+            format!("{}{}", "x".repeat(pad), items.join(sep))
+        }),
+    ]
 }
 
 pub fn mdc_key() -> impl Strategy<Value = String> {
